@@ -127,7 +127,7 @@ def _bloom_like(case, ctx, d, counting):
     o = d.obj
     hf = d.hf
     kind = "counting" if counting else d.kind
-    if o.elements_added < 0 and ctx.guard("KF_SATURATED_SETOP") and not case.get("force_export"):
+    if o.elements_added < 0 and (ctx.guard("KF_SATURATED_SETOP") or ctx.guard("KF_SETOP_PRODUCT_NEGATIVE_COUNT")) and not case.get("force_export"):
         # open finding: a union/intersection whose cells are all set carries the -1 sentinel of estimate_elements() as its
         # element count, which export cannot pack.  Excluded by construction while the finding is open (counted).
         ctx.exclude("KF_SATURATED_SETOP")
@@ -137,10 +137,11 @@ def _bloom_like(case, ctx, d, counting):
     K = CountingBloomFilter if counting else BloomFilter
     ondisk = kind == "ondisk"
     if ondisk:
-        raw = ctx.call(ad.nx, bytes, o)
         p = ad.path()
-        ctx.call(ad.nx, o.export, p)
-        ctx.check("C05.channels", open(p, "rb").read() == raw, "on-disk export(path) differs from bytes()")
+        ctx.call(ad.nx, o.export, p)  # the copy is made BEFORE bytes() is asked for, so each channel has to be current by itself
+        copied = open(p, "rb").read()
+        raw = ctx.call(ad.nx, bytes, o)
+        ctx.check("C05.channels", copied == raw, lambda: f"on-disk export(path) differs from bytes(): footer {FOOT.unpack(copied[-20:])} vs {FOOT.unpack(raw[-20:])}")
     else:
         raw = ad.channels(o)
     cells = raw[:-20]
@@ -180,6 +181,9 @@ def _bloom_like(case, ctx, d, counting):
     for ki, n, rem in case["suffix"]:
         k = probes[ki % len(probes)]
         legit = counting and rem and outstanding.get(k, 0) >= n  # removals stay legitimate (never exceed what was added)
+        if legit and getattr(d, "product", False) and o.elements_added - n < 0 and not case.get("force_remove"):
+            ctx.exclude("KF_SETOP_PRODUCT_NEGATIVE_COUNT")  # open finding: the count of a union product would go negative
+            legit = False
         for name, x in [("orig", o)] + copies:
             if counting:
                 if legit:
